@@ -19,8 +19,9 @@ run an arbitrary script of `enqueue / tryEnqueue / enqueueWithResult` calls, *wo
 The state of a thread is typed by its kind, so that "a worker between pop and `task = {}` has exactly one task in
 hand" and "only the controller runs controller code" hold by construction.
 
-Not modelled (stated in the check's assumptions): `start()`/`reset()` (restart after stop), `setShutdownMode` at run
-time, resource exhaustion (`std::thread` failing), the contents of tasks other than submit/throw.
+Restart (`reset()` + `start()` after `stop()`) is modelled (`rsL … kU`), the theorems of Props/C09 about whole runs assume it
+is not used.  Not modelled as transitions: `setShutdownMode` at run time, the contents of tasks other than submit/throw; a
+failing `std::thread` creation is modelled at the level of the submitting critical section only (`spawnFailed`, fixes/FC09e).
 -/
 namespace Iora.ThreadPool
 open Iora
@@ -202,9 +203,10 @@ inductive MPc
   /-- after a polling loop timed out (drain, dtor): final `getPendingTaskCount()` L / U -/
   | finL (k : Poll) | finU (k : Poll)
   /-- `shutdown()` / phase 1: L, U (already shut down), U, B -/
-  | sFlagL | sFlagUA | sFlagU | sBcast
-  /-- `shutdown()` found `_shutdown` already set: Z 1 ms while `!_shutdownComplete` (fixes/FC09a) -/
-  | sDoneZ
+  | sFlagL | sFlagUA (ep : Nat) | sFlagU | sBcast
+  /-- `shutdown()` found `_shutdown` already set and read `_shutdownEpoch = ep` under `_mutex`: Z 1 ms while
+  `_shutdownCompleteEpoch < ep` (fixes/FC09a, FC09d) -/
+  | sDoneZ (ep : Nat)
   /-- `shutdown()`: Z 10 ms, then the re-check L / U -/
   | sGrace | sChkL | sChkU
   /-- join loop (shutdown() and phase 4): L (pick), U, J / D, U (none left) -/
@@ -237,6 +239,8 @@ structure MRegs where
   inflight : Nat := 0
   /-- an additional controller thread (not the owner of the pool) -/
   aux : Bool := false
+  /-- `myEpoch` of `shutdown()`: the number this caller gave to the shutdown it owns -/
+  ep : Nat := 0
   deriving DecidableEq, Repr, Inhabited
 
 inductive Thread
@@ -282,8 +286,11 @@ structure Shared where
   shutCalled : Bool := false
   /-- a join loop has completed (found no joinable thread) -/
   quiesced : Bool := false
-  /-- `_shutdownComplete` -/
-  complete : Bool := false
+  /-- `_shutdownCompleteEpoch`: number of the last `shutdown()` that has joined every worker (only grows; `start()` does not
+  touch it — fixes/FC09d) -/
+  complete : Nat := 0
+  /-- `_shutdownEpoch`: number of the shutdown that last set `_shutdown` (guarded by `_mutex`) -/
+  epoch : Nat := 0
   /-- results of the controller operations, newest first: 1 drain() ok, 2 drain() timed out, 3 drain() refused (state),
   4 stop ok, 5 stop failed (drain), 6 stop refused (state), 7 shutdown returned, 8 destructor returned,
   9 destructor returned with joinable threads left (`std::terminate`), 10 restarted (`reset()` + `start()`),
@@ -411,6 +418,14 @@ def callStep (cfg : Cfg) (sh : Shared) (n : Nat) (t : Tid) (c : CallSt) : Shared
   | .inCall rest _ .notify => (sh, nextCall rest, .wakeOne)
   | .inCall rest _ .unlockR => ({ sh with owner := none }, nextCall rest, .none)
 
+/-- mirrors the `catch (const std::system_error &)` block of `enqueueImpl` / `tryEnqueueImpl` (fixes/FC09e), entered inside the
+critical section right after `_tasks.emplace` when `std::thread` could not be created: with no registered worker the task pushed
+last is taken back (`discardNewestTaskLocked`) and the call is refused (`true`); otherwise the task stays queued, the call is
+accepted and an existing worker runs it.  (Function-level model of the failure path: `callStep`'s `create` step is the successful
+creation; the interleaving theorems assume creations succeed.) -/
+def spawnFailed (sh : Shared) : Shared × Bool :=
+  if sh.threads = [] then ({ sh with tasks := sh.tasks.dropLast }, true) else (sh, false)
+
 -- ------------------------------------------------------------------------------------------- worker
 /-- mirrors the tail of the worker loop after `task()` returned: `task = {}`; `--_activeThreads`; `--_busyThreads` -/
 def taskDone (sh : Shared) : Shared × WSt :=
@@ -512,8 +527,8 @@ def logM (sh : Shared) (code : Nat) : Shared := { sh with mlog := code :: sh.mlo
 
 /-- `shutdown()` has returned -/
 def shutdownReturn (sh : Shared) (r : MRegs) : Shared × MPc × MRegs :=
-  if r.inStop then ({ sh with complete := true, life := .stopped, mlog := 4 :: 7 :: sh.mlog }, .mYield, { r with inStop := false })
-  else ({ sh with complete := true, mlog := 7 :: sh.mlog }, .mYield, r)
+  if r.inStop then ({ sh with life := .stopped, mlog := 4 :: 7 :: sh.mlog }, .mYield, { r with inStop := false })
+  else ({ sh with mlog := 7 :: sh.mlog }, .mYield, r)
 
 /-- `drain()` has returned -/
 def drainReturn (sh : Shared) (r : MRegs) (ok : Bool) : Shared × MPc × MRegs :=
@@ -572,7 +587,7 @@ def dtorReturn (sh : Shared) (r : MRegs) : Shared × MPc × MRegs :=
 /-- the destructor finds `_shutdown` already set and returns at once; if the `shutdown()` that set it has not completed,
 another thread is still using the object (the caller violated the object's lifetime): code 13 -/
 def dtorEarly (sh : Shared) (r : MRegs) : Shared × MPc × MRegs :=
-  if sh.complete then dtorReturn sh r
+  if sh.epoch ≤ sh.complete then dtorReturn sh r
   else ({ sh with mlog := 13 :: sh.mlog }, .mYield, { r with inDtor := false })
 
 /-- one step of the controller -/
@@ -618,15 +633,17 @@ def transM (cfg : Cfg) (sh : Shared) (n : Nat) (t : Tid) (pc : MPc) (r : MRegs) 
     | _ => ({ sh with owner := none }, (.p4CfgL, r), .none)
   -- shutdown() / phase 1
   | .sFlagL =>
-    if sh.shutdown then ({ sh with owner := some t }, (.sFlagUA, r), .none)
-    else ({ sh with owner := some t, shutdown := true, shutCalled := true }, (.sFlagU, r), .none)
-  | .sFlagUA =>
+    -- `if (_shutdown) { epoch = _shutdownEpoch; … }` / `_shutdown = true; myEpoch = ++_shutdownEpoch;`
+    if sh.shutdown then ({ sh with owner := some t }, (.sFlagUA sh.epoch, r), .none)
+    else ({ sh with owner := some t, shutdown := true, shutCalled := true, epoch := sh.epoch + 1 }, (.sFlagU, { r with ep := sh.epoch + 1 }), .none)
+  | .sFlagUA ep =>
     if r.inDtor then let x := dtorEarly { sh with owner := none } r; (x.1, (x.2.1, x.2.2), .none)
-    else if sh.complete then let x := shutdownReturn { sh with owner := none } r; (x.1, (x.2.1, x.2.2), .none)
-    else ({ sh with owner := none }, (.sDoneZ, r), .none)
-  | .sDoneZ =>
-    if sh.complete then let x := shutdownReturn sh r; (x.1, (x.2.1, x.2.2), .none)
-    else (sh, (.sDoneZ, r), .none)
+    else if ep ≤ sh.complete then let x := shutdownReturn { sh with owner := none } r; (x.1, (x.2.1, x.2.2), .none)
+    else ({ sh with owner := none }, (.sDoneZ ep, r), .none)
+  | .sDoneZ ep =>
+    -- `while (_shutdownCompleteEpoch.load(acquire) < epoch) sleep 1 ms`
+    if ep ≤ sh.complete then let x := shutdownReturn sh r; (x.1, (x.2.1, x.2.2), .none)
+    else (sh, (.sDoneZ ep, r), .none)
   | .sFlagU => ({ sh with owner := none }, (.sBcast, r), .none)
   | .sBcast =>
     if r.inDtor then (sh, (.p2Z, { r with iter := 0 }), .wakeAll)
@@ -649,7 +666,7 @@ def transM (cfg : Cfg) (sh : Shared) (n : Nat) (t : Tid) (pc : MPc) (r : MRegs) 
   | .jDetach _ => (sh, (.jL, r), .none)
   | .jUnone =>
     if r.inDtor then ({ sh with owner := none }, (.p5L, r), .none)
-    else let x := shutdownReturn { sh with owner := none } r; (x.1, (x.2.1, x.2.2), .none)
+    else let x := shutdownReturn { sh with owner := none, complete := r.ep } r; (x.1, (x.2.1, x.2.2), .none)   -- `_shutdownCompleteEpoch.store(myEpoch)`
   -- destructor phases 2..5
   | .p2Z =>
     if sh.waiting = 0 ∧ sh.exited ≥ sh.created then (sh, (.p2Grace, { r with iter := r.iter + 1 }), .none)
@@ -665,7 +682,7 @@ def transM (cfg : Cfg) (sh : Shared) (n : Nat) (t : Tid) (pc : MPc) (r : MRegs) 
   | .rsU =>
     ({ sh with owner := none, active := 0, busy := 0, created := 0, started := 0, exited := 0, waiting := 0, life := .reset },
      (.stL, r), .none)
-  | .stL => ({ sh with owner := some t, shutdown := false, complete := false, quiesced := false }, (.stU, r), .none)
+  | .stL => ({ sh with owner := some t, shutdown := false, quiesced := false }, (.stU, r), .none)
   | .stU =>
     if cfg.initialSize = 0 then
       ({ sh with owner := none, accepting := true, life := .running, mlog := 10 :: sh.mlog }, (.mYield, r), .none)
